@@ -302,7 +302,8 @@ def run(ck):
                'non-trivial when M >= 2')
     ck.check_props(required=['C05_check_coll_sound', 'C05_weights_exact_for_all_polynomials',
                              'C05_Qmat_rows_exact_for_all_polynomials', 'C05_check_affine_sound',
-                             'C05_pint_is_antiderivative_difference'])
+                             'C05_pint_is_antiderivative_difference', 'C05_check_reinit_sound',
+                             'C05_reinit_history_independent'])
 
     # ------------------------------------------------------------------ 1. rejection behaviour
     def build(M, a, b, nt, qt, upd_in=False):
@@ -573,6 +574,126 @@ def run(ck):
     ck.cov['interval_class_histogram'] = hist
     ck.obligation('check_coll accepts every regenerated table (%d of %d; %d snapped ones excluded)' % (nacc, len(tabs) - len(snapped), len(snapped)),
                   nacc == len(tabs) - len(snapped))
+
+    # ------------------------------------------------------------------ 5b. the collocation-update switch, fresh and RE-INITIALISED
+    # Sweeper.__init__ must leave params.do_coll_update == user value or (not coll.right_is_node), also when ONE sweeper
+    # object is initialised again and again through sweeper.__init__(params) (AdaptiveCollocation.switch_sweeper does that),
+    # and the collocation tables after a re-initialisation must equal those of a fresh object.
+    import importlib
+    sweeper_classes = []
+    for modname, clsname in (('generic_implicit', 'generic_implicit'), ('imex_1st_order', 'imex_1st_order'), ('explicit', 'explicit'),
+                             ('multi_implicit', 'multi_implicit'), ('verlet', 'verlet'), ('boris_2nd_order', 'boris_2nd_order'),
+                             ('imex_1st_order_mass', 'imex_1st_order_mass')):
+        try:
+            mod = importlib.import_module('pySDC.implementations.sweeper_classes.' + modname)
+            cls = getattr(mod, clsname)
+            cls({'num_nodes': 2, 'quad_type': 'RADAU-RIGHT', 'node_type': 'LEGENDRE'}, None)
+            sweeper_classes.append(cls)
+        except Exception as e:      # not constructible without a level / extra libraries: recorded, not checked
+            ck.cov.setdefault('sweeper_classes_not_constructible', []).append('%s: %s' % (clsname, type(e).__name__))
+    ck.cov['sweeper_classes_flag_checked'] = [c.__name__ for c in sweeper_classes]
+    RIGHT = {'GAUSS': False, 'LOBATTO': True, 'RADAU-LEFT': False, 'RADAU-RIGHT': True}
+
+    def same_tables(c1, c2):
+        return (c1.num_nodes == c2.num_nodes and c1.order == c2.order and c1.left_is_node == c2.left_is_node
+                and c1.right_is_node == c2.right_is_node and c1.quad_type == c2.quad_type and c1.node_type == c2.node_type
+                and all(np.array_equal(np.asarray(getattr(c1, a)), np.asarray(getattr(c2, a)))
+                        for a in ('nodes', 'weights', 'Qmat', 'Smat', 'delta_m')))
+
+    def sw_params(qt, nt, M, user):
+        p = {'num_nodes': M, 'quad_type': qt, 'node_type': nt}
+        if user is not None:
+            p['do_coll_update'] = user
+        return p
+
+    traces = []        # (class name, [(qt, nt, M, user)], [observed flag])
+    nflag = 0
+    flag_bad = []
+    # (i) fresh construction: every class x quad x node type x a few M x user flag in {absent, False, True}
+    for cls in sweeper_classes:
+        for qt in QUAD_TYPES:
+            for nt in NODE_TYPES:
+                for M in ((2, 3, 5) if not thorough else (2, 3, 4, 5, 7)):
+                    for user in (None, False, True):
+                        sw = cls(sw_params(qt, nt, M, user), None)
+                        nflag += 1
+                        want = bool(user) or not sw.coll.right_is_node
+                        traces.append((cls.__name__, [(qt, nt, M, user)], [bool(sw.params.do_coll_update)]))
+                        if bool(sw.params.do_coll_update) != want or sw.coll.right_is_node != RIGHT[qt]:
+                            flag_bad.append(('fresh', cls.__name__, [(qt, nt, M, user)], 0, bool(sw.params.do_coll_update), want))
+    # (ii) re-initialisation sequences of ONE object: fixed ones (incl. the pattern of AdaptiveCollocation) + seeded ones
+    fixed = [[('RADAU-RIGHT', 3, None), ('GAUSS', 3, None), ('RADAU-RIGHT', 3, None), ('GAUSS', 3, None), ('RADAU-LEFT', 3, None)],
+             [('GAUSS', 2, None), ('GAUSS', 3, None), ('GAUSS', 2, None)],
+             [('RADAU-LEFT', 2, None), ('LOBATTO', 3, None), ('RADAU-LEFT', 3, None), ('GAUSS', 2, False)],
+             [('GAUSS', 3, True), ('RADAU-RIGHT', 3, None), ('GAUSS', 3, False), ('LOBATTO', 2, True), ('LOBATTO', 2, None)]]
+    seqs = []
+    for cls in sweeper_classes:
+        for f in fixed:
+            seqs.append((cls, [(qt, 'LEGENDRE', M, u) for qt, M, u in f]))
+        for _ in range(6 if not thorough else 30):
+            n = rng.randint(3, 7)
+            seqs.append((cls, [(rng.choice(QUAD_TYPES), rng.choice(NODE_TYPES), rng.randint(2, 6), rng.choice([None, None, False, True]))
+                               for _ in range(n)]))
+    for cls, calls in seqs:
+        sw = None
+        obs = []
+        for i, (qt, nt, M, user) in enumerate(calls):
+            try:
+                if sw is None:
+                    sw = cls(sw_params(qt, nt, M, user), None)
+                else:
+                    sw.__init__(sw_params(qt, nt, M, user), None)
+            except Exception as e:
+                ck.violation('%s.__init__ raised %s on (re-)initialisation %d of one object: %s' % (cls.__name__, type(e).__name__, i, e),
+                             {'class': cls.__name__, 'calls': calls, 'index': i}, match={'kind': 'reinit-raise', 'class': cls.__name__})
+                break
+            nflag += 1
+            got = bool(sw.params.do_coll_update)
+            want = bool(user) or not sw.coll.right_is_node
+            obs.append(got)
+            fresh = CollBase(M, 0, 1, node_type=nt, quad_type=qt)
+            if not same_tables(sw.coll, fresh):
+                ck.violation('%s: collocation tables after re-initialisation %d differ from a fresh CollBase(%d, %s, %s)' % (cls.__name__, i, M, nt, qt),
+                             {'call': 'sweeper.__init__(params, None) repeatedly on one object', 'class': cls.__name__, 'calls': calls, 'index': i},
+                             match={'kind': 'reinit-tables', 'class': cls.__name__})
+            if got != want or sw.coll.right_is_node != RIGHT[qt]:
+                flag_bad.append(('re-initialised', cls.__name__, calls[:i + 1], i, got, want))
+        traces.append((cls.__name__, calls[:len(obs)], obs))
+        ck.case(key=('reinit', cls.__name__, str(calls)), nontrivial=len(calls) >= 2)
+        ck.traces += 1
+    ck.cov['sweeper_flag_initialisations_checked'] = nflag
+    seen_bad = set()
+    for how, cname, calls, i, got, want in flag_bad:
+        keyb = (how, cname)
+        if keyb in seen_bad:
+            continue
+        seen_bad.add(keyb)
+        qt, nt, M, user = calls[i]
+        ck.violation('%s %s sweeper: after initialisation %d with quad_type=%s (right end %s a node), user do_coll_update=%s the object has '
+                     'params.do_coll_update=%s, expected %s (%d such cases in this run)'
+                     % (how, cname, i, qt, 'is' if RIGHT[qt] else 'is NOT', user, got, want, sum(1 for b in flag_bad if b[:2] == keyb)),
+                     {'call': 'sw = %s(params_0, None); sw.__init__(params_1, None); ...' % cname, 'class': cname,
+                      'params_sequence': [sw_params(*c) for c in calls], 'index_of_bad_initialisation': i,
+                      'observed_do_coll_update': got, 'expected': want},
+                     match={'kind': 'upd-reinit' if how != 'fresh' else 'upd', 'class': cname})
+    # the same traces through the verified Coq checker (flag = function of the current call only)
+    Lr = ['From Coq Require Import List Bool.', 'From PySDC Require Import Base.Dyadic Model.Colloc Proofs.CollocProofs.', 'Import ListNotations.',
+          'Definition traces : list (list (bool * bool) * list bool) := [']
+    Lr.append(';\n'.join('(%s, %s)' % (coq_list(['(%s, %s)' % (coq_bool(RIGHT[qt]), coq_bool(bool(u))) for qt, nt, M, u in calls]),
+                                         coq_list([coq_bool(o) for o in obs])) for _, calls, obs in traces))
+    Lr.append('].')
+    Lr.append('Eval vm_compute in map (fun t => check_reinit (fst t) (snd t)) traces.')
+    rc, out = ck.coqc(ck.write_gen('Reinit.v', '\n'.join(Lr) + '\n'), timeout=600)
+    if rc != 0:
+        ck.obligation('Reinit.v evaluates', False, out[-1500:])
+        ck.violation('generated re-initialisation traces do not compile', {'log': out[-3000:]}, match={'kind': 'gen'}, no_input=True)
+    else:
+        res = parse_coq_value(eval_outputs(out)[0])
+        py_ok = [all(o == (bool(u) or not RIGHT[qt]) for (qt, nt, M, u), o in zip(calls, obs)) for _, calls, obs in traces]
+        ck.obligation('check_reinit accepts all %d initialisation traces of %d sweeper classes' % (len(traces), len(sweeper_classes)), all(res))
+        if list(res) != py_ok:
+            ck.violation('Coq check_reinit and the Python flag oracle disagree', {'coq_rejects': [i for i, r in enumerate(res) if not r][:20]},
+                         match={'kind': 'oracle-mismatch', 'clause': 'upd-reinit'}, no_input=True)
 
     # ------------------------------------------------------------------ 6. CollBase.evaluate on the live object (API-level oracle)
     nev = 0
